@@ -1,0 +1,19 @@
+//! Verification hooks. Compiled only with `--cfg desert_verif`; a harness can install a function
+//! that is called at the points where a call touches per-call or per-type state, so that a
+//! controlled scheduler can switch threads there.
+use std::sync::atomic::{AtomicUsize, Ordering};
+
+static YIELD_HOOK: AtomicUsize = AtomicUsize::new(0);
+
+/// Installs (or removes) the function called at every hook point.
+pub fn set_yield_hook(hook: Option<fn(&'static str)>) {
+    YIELD_HOOK.store(hook.map(|f| f as usize).unwrap_or(0), Ordering::SeqCst);
+}
+
+pub(crate) fn point(name: &'static str) {
+    let raw = YIELD_HOOK.load(Ordering::SeqCst);
+    if raw != 0 {
+        let hook: fn(&'static str) = unsafe { std::mem::transmute(raw) };
+        hook(name);
+    }
+}
